@@ -3,7 +3,8 @@
 1. TLC model-checks spec/Str.tla (MC_Str): every public string operation as an action over strings of abstract
    characters addressed by byte index; the design-level step properties (whole characters / valid UTF-8 after every
    step including panicked ones, panic exactly on a bad index, split_off partitions, C strings, decoders) are asserted
-   on every transition; `-coverage 1` proves no action is dead.
+   on every transition; `-coverage 1` proves no action is dead.  MC_StrBytes: bump-scope's byte-level algorithms
+   (transcribed in StrBytes.tla) refine the character-level operators for every short string.
 2. TLC emits behaviours of the same specification (exhaustive short paths + seeded random walks) as JSON.
 3. harness/strs replays them on BumpBox<str>, FixedBumpString, BumpString, MutBumpString (UP/DOWN x MIN_ALIGN 1/8) and
    on std::string::String and records one observation per step.
@@ -19,10 +20,10 @@ DRIFT = ["d_retain", "d_forget", "d_cap"]
 TOOLING = ["t_spec", "t_harness"]
 
 BASE = {
-    "Alphabet": "AlphabetDef", "MaxChars": 3, "MaxOps": 3, "Texts": "TextsDef", "Lits": "LitsDef",
+    "Alphabet": "AlphabetDef", "MaxChars": 3, "MaxOps": 3, "Texts": "TextsDef", "CTexts": "CTextsDef", "Lits": "LitsDef",
     "Kinds": "AllKinds", "FixedCaps": "CapsDef", "StartTexts": "AllStrings", "CtorNames": "AllCtors",
     "OpNames": "AllOps", "MaxSegs": 2, "MaxPieces": 2, "InclSet": "BothIncl", "Apis": "BothApis",
-    "DrainF": 2, "DrainB": 1, "CheckProps": "TRUE", "SampleK": 0,
+    "DrainF": 2, "DrainB": 1, "OutFilter": "AllOuts", "CheckProps": "TRUE", "SampleK": 0,
 }
 MC_INVARIANTS = ["TypeOK", "WholeChars", "CapOk", "BoundaryAgree"]
 
@@ -67,6 +68,16 @@ def model_check(thorough, wd):
     dead = [a for a in _actions() if r.coverage.get(a, (0, 0))[1] == 0]
     if dead:
         raise ToolError("MC_Str: dead actions (never taken within the bounds): %s" % dead)
+    # the implementation-shaped byte-level algorithms (StrBytes.tla) refine the character-level operators
+    b = tlc("MC_StrBytes", "MC_StrBytes.cfg", workers=1, timeout=1800, xmx="4g", xss="64m",
+            metadir=os.path.join(wd, "md-bytes"))
+    require_ok(b, "MC_StrBytes")
+    checked = sum(int(x) for x in b.tagged("REFINE_CHECKED"))
+    bad = sum(int(x) for x in b.tagged("REFINE_BAD"))
+    if bad or not checked:
+        raise ToolError("MC_StrBytes: the byte-level layer does not refine StrOps (%d of %d strings), e.g. %s"
+                        % (bad, checked, b.tagged("REFINE_EXAMPLE")))
+    r.refinement_checked = checked
     return r
 
 
@@ -77,13 +88,20 @@ def _emission_sets(thorough):
     """(name, constants, None | (walks per process, depth, processes))"""
     emitc = {"CheckProps": "FALSE"}
     one_op = dict(emitc, MaxOps=2, CtorNames="FromStrOnly", Apis="BothApis")
-    walk = dict(emitc, MaxChars=4, StartTexts="SomeStrings", MaxSegs=3, Texts="TextsSmall", MaxPieces=1, DrainF=1, DrainB=1,
-                SampleK=4)
+    walk = dict(emitc, MaxChars=4, StartTexts="SomeStrings", MaxSegs=3, Texts="TextsSmall", CTexts="CTextsWalk", MaxPieces=1,
+                DrainF=1, DrainB=1, SampleK=4)
     if not thorough:
         return [
             # every string of <= 2 characters x every operation instance (one step after the constructor)
             ("every-op", dict(one_op, MaxChars=2, Texts="TextsSmall", InclSet="NoIncl", DrainF=1, DrainB=1, MaxPieces=1,
                               FixedCaps="CapsSmall"), None),
+            # 3-character strings over {a, U+E9, U+1F600} (head / range / tail all non-empty: the rotation branches of
+            # split_off, tail moves with multi-byte characters on both sides): every operation instance that succeeds,
+            # and every retain mask with every panic point
+            ("ok-3", dict(one_op, MaxChars=3, Alphabet="AlphabetSmall", Kinds="BoxGrow", Texts="TextsSmall", InclSet="NoIncl",
+                          Apis="OnlyP", DrainF=1, DrainB=1, MaxPieces=1, OutFilter="OkOnly"), None),
+            ("retain-3", dict(one_op, MaxChars=3, Alphabet="AlphabetSmall", Kinds="KindBox", OpNames="RetainOnly",
+                              OutFilter="OkPanic"), None),
             # every instance of the decoding / formatting constructors
             ("every-ctor", dict(emitc, MaxOps=1, MaxChars=4, StartTexts="SomeStrings", CtorNames="DecodeCtors", MaxSegs=2,
                                 MaxPieces=2), None),
@@ -352,8 +370,16 @@ def _conformance(tier, t0, thorough, out, wd, bins, mc_future):
         out.violation({"clause": "crash", "op": name, "ty": w["ty"], "exp": "-", "obs": "signal %d" % w["signal"], "case": "-"},
                       {"check": PID, "what": "the process executing the string operations was killed by a signal",
                        "where": w, "behaviour": ops[: w["step"] + 1], "emission_set": b.get("set")})
-        mc_future.result()
-        return out.finish()
+        mc = mc_future.result()
+        rc = out.finish()
+        if mc is not None:
+            write_evidence(PID, tier, "model_checking", {
+                "states": max(mc.distinct, 1), "transitions": max(mc.generated, 1), "traces_validated_against_impl": 0,
+                "samples": [{"crashed_at": w, "ops": ops[: w["step"] + 1]}], "behaviour_sets": sets,
+                "explanation": "the harness process was killed by a signal while executing the code under test; "
+                               "reported as a violation, no observation could be evaluated",
+            }, time.time() - t0, violations=len(out.violations))
+        return rc
     log("replayed %d behaviours: %d steps executed, %d distinct records" % (nbeh, nsteps, nlines))
     total = nlines + len(canaries)
     t1 = time.time()
@@ -447,6 +473,7 @@ def _conformance(tier, t0, thorough, out, wd, bins, mc_future):
         "exhaustive": False,
         "mc_bounds": "alphabet {a, NUL, U+E9, U+20AC, U+1F600}, <= %d characters, <= %d steps" % ((4, 5) if thorough else (3, 3)),
         "mc_actions_taken": {a: mc.coverage[a][1] for a in _actions() if a in mc.coverage},
+        "byte_level_refinement_strings_checked": getattr(mc, "refinement_checked", 0),
         "behaviour_sets": sets,
         "steps_executed": nsteps,
         "distinct_records_checked_by_tlc": nlines,
